@@ -6,6 +6,7 @@
 import Lean.Data.Json
 import IcontractModel.Chain
 import IcontractModel.Spec.Dnf
+import IcontractModel.Spec.Post
 open Lean Icontract
 
 deriving instance FromJson, ToJson for Exc
@@ -142,6 +143,14 @@ def runChecker (c : CheckerCase) : Json :=
   let falsyErr : Bool := (allPre ++ ck.posts).any (fun c => match errorOf o kw c with | some e => !e.truthy | none => false)
   let capTotal : Bool := ck.snaps.all (captureTotal c.async o kw)
   let errNotTotal : Bool := allPre.any (fun c => (errorOf o kw c).isNone)
+  let old := expectedOld c.async o ck.snaps
+  let bodyRet : Option Id := match o.body with | .ret v => some v | .raises _ => none
+  let kwPost := postKwargs ck kw old (bodyRet.getD 0)
+  let postTotal : Bool := ck.posts.all (fun x => condTruthy c.async o kwPost x || condFalsy c.async o kwPost x)
+  let postFF := firstFalsy c.async o kwPost ck.posts
+  let expectedPostErr : Json := match postFF with
+    | some fc => (match errorOf o kwPost fc with | some e => raisedJson e | none => Json.null)
+    | none => Json.null
   Json.mkObj [
     ("trace", jArr (r.trace.map eventJson)),
     ("out", outJson r.out),
@@ -151,8 +160,25 @@ def runChecker (c : CheckerCase) : Json :=
     ("posts", jArr (ck.posts.map fun c => jNat c.id)),
     ("spec", Json.mkObj [("dnfHolds", boolJson dnf), ("totalPre", boolJson total), ("callOk", boolJson callOk), ("capTotal", boolJson capTotal),
       ("expectedErr", expectedErr), ("falsyErrorInvolved", boolJson falsyErr),
-      ("earlierGroupErrorNotTotal", boolJson errNotTotal)])
+      ("earlierGroupErrorNotTotal", boolJson errNotTotal),
+      ("postTotal", boolJson postTotal),
+      ("postFirstFalsy", match postFF with | some fc => jNat fc.id | none => Json.null),
+      ("expectedPostErr", expectedPostErr),
+      ("oldExpected", jArr ((sortPairs (old.map fun p => (p.1, jNat p.2))).map fun p => jArr [jStr p.1, p.2]))])
   ]
+
+/-- a sequence of calls in one context: the in-progress set is threaded from step to step -/
+def runCheckerSeq (steps : List CheckerCase) : Json :=
+  let rec go (s : Option (List Id)) : List CheckerCase → List Json
+    | [] => []
+    | c :: cs =>
+      let c' := match s with | some ids => { c with inProgress := ids } | none => c
+      let o := c'.oracle
+      let ck := c'.checker
+      let call : Call := { args := c'.args, kwargs := c'.kwargs }
+      let (_, s') := if c'.async then callAsync ck o c'.inProgress call else callSync ck o c'.inProgress call
+      runChecker c' :: go (some s') cs
+  jArr (go none steps)
 
 def handle (line : String) : String :=
   match Json.parse line with
@@ -163,6 +189,13 @@ def handle (line : String) : String :=
       match (fromJson? j : Except String CheckerCase) with
       | .ok c => (runChecker c).compress
       | .error e => (Json.mkObj [("error", jStr s!"decode checker: {e}")]).compress
+    | .ok "checkerseq" =>
+      match j.getObjVal? "steps" with
+      | .ok (Json.arr steps) =>
+        match steps.toList.mapM (fun x => (fromJson? x : Except String CheckerCase)) with
+        | .ok cs => (Json.mkObj [("steps", runCheckerSeq cs)]).compress
+        | .error e => (Json.mkObj [("error", jStr s!"decode checkerseq: {e}")]).compress
+      | _ => (Json.mkObj [("error", jStr "checkerseq without steps")]).compress
     | .ok d => (Json.mkObj [("error", jStr s!"unknown domain {d}")]).compress
     | .error e => (Json.mkObj [("error", jStr s!"no dom: {e}")]).compress
 
